@@ -25,7 +25,9 @@ _CMPOPS = {ast.Eq: "==", ast.NotEq: "!=", ast.Lt: "<", ast.LtE: "<=", ast.Gt: ">
            ast.In: "in", ast.NotIn: "notin", ast.Is: "is", ast.IsNot: "isnot"}
 _BUILTINS = {"min", "max", "len", "divmod", "int", "bool", "bytes", "str", "abs", "isinstance", "hasattr",
              "getattr", "all", "any", "list", "tuple", "dict", "set", "sorted", "map", "range", "memoryview",
-             "bytearray", "open", "print", "repr", "super", "enumerate", "zip", "iter", "next", "sum", "type"}
+             "bytearray", "open", "print", "repr", "super", "enumerate", "zip", "iter", "next", "sum", "type",
+             "reversed", "frozenset", "float", "ord", "chr", "hex", "bin", "oct", "round", "pow", "filter", "slice",
+             "format", "callable", "issubclass", "id", "hash"}
 
 
 class FuncCtx:
@@ -175,6 +177,16 @@ class Recon:
             except NotConst:
                 return S.unk(type(node).__name__.lower())
         if isinstance(node, (ast.ListComp, ast.GeneratorExp, ast.SetComp, ast.DictComp)):
+            if len(node.generators) == 1 and not node.generators[0].is_async:
+                # ('comp', kind, element, iterable, filters): the bound names inside are ('iter', iterable, index) terms
+                gen = node.generators[0]
+                kind = {ast.ListComp: "list", ast.GeneratorExp: "gen", ast.SetComp: "set", ast.DictComp: "dict"}[type(node)]
+                it = rec(gen.iter)
+                if isinstance(node, ast.DictComp):
+                    elt = ("tuple", (rec(node.key), rec(node.value)))
+                else:
+                    elt = rec(node.elt)
+                return ("comp", kind, elt, it, tuple(rec(c) for c in gen.ifs))
             return S.unk("comp:" + ast.unparse(node)[:60])
         if isinstance(node, ast.Lambda):
             return S.unk("lambda")
@@ -731,7 +743,18 @@ class Recon:
             return S.call("super." + fn.attr, args, kws)
         # bound method call: receiver becomes first argument
         if isinstance(fn, ast.Attribute):
-            recv = rec(fn.value)
+            return self._method_call(ctx, node, rec(fn.value), fn.attr, args, kws, depth)
+        f = rec(fn)
+        if f[0] == "attr" and isinstance(f[2], str):
+            # a bound method kept in a local (`find = self.table.find; find(x)`) is the method call on its receiver
+            return self._method_call(ctx, node, f[1], f[2], args, kws, depth)
+        return self._call_value(ctx, node, f, args, kws, depth)
+
+    def _method_call(self, ctx: FuncCtx, node: ast.Call, recv, name: str, args, kws, depth):
+        class _Fn:  # the few attributes of the ast.Attribute the code below reads
+            attr = name
+        fn = _Fn
+        if True:
             target = self.attr(recv, fn.attr, ctx, depth + 1)
             if target[0] == "func" and not target[1].startswith("builtin:"):
                 fdef = self._func_by_key(target[1])
@@ -766,7 +789,8 @@ class Recon:
                     if fdef is not None:
                         return self.call_func(funcs[0][1], fdef, [recv] + args, kws, depth)
             return S.call("." + fn.attr, [recv] + args, kws)
-        f = rec(fn)
+
+    def _call_value(self, ctx: FuncCtx, node: ast.Call, f, args, kws, depth):
         if f[0] == "func":
             nm = f[1]
             if nm.startswith("builtin:"):
